@@ -177,6 +177,23 @@ func shuffled(r *rand.Rand, rows results.Rows) results.Rows {
 	return out
 }
 
+func sameMultiset(a, b []resgen.Ident) bool {
+	if len(a) != len(b) {
+		return false
+	}
+	m := make(map[resgen.Ident]int, len(a))
+	for _, x := range a {
+		m[x]++
+	}
+	for _, x := range b {
+		m[x]--
+		if m[x] < 0 {
+			return false
+		}
+	}
+	return true
+}
+
 func equalIdents(a, b []resgen.Ident) int {
 	if len(a) != len(b) {
 		return 0
@@ -237,40 +254,26 @@ func analyse(rows results.Rows, cb combo) tieInfo {
 	return ti
 }
 
-func permClass(rows results.Rows, a, b []resgen.Ident, at int) string {
-	// the two sequences first differ at `at`: are the two rows involved the same instant in different zones?
-	if at < 0 || at >= len(a) || at >= len(b) {
-		return "other"
-	}
-	x, y := a[at], b[at]
-	if !x.ZeroTS && !y.ZeroTS && x.UnixNano == y.UnixNano {
-		// find the zone representations of the two rows in the input
-		var zx, zy []string
-		for _, r := range rows {
-			id := resgen.IdentOf(r)
-			if id == x {
-				zx = append(zx, r.Labels.Timestamp.Format("-07:00"))
-			}
-			if id == y {
-				zy = append(zy, r.Labels.Timestamp.Format("-07:00"))
+// zoneClass is the feature class of an input for signatures: does it hold the same instant in two
+// different time.Time representations (zones)?
+func zoneClass(rows results.Rows) string {
+	for i := range rows {
+		for j := i + 1; j < len(rows); j++ {
+			a, b := rows[i].Labels.Timestamp, rows[j].Labels.Timestamp
+			if !a.IsZero() && !b.IsZero() && a.Equal(b) && a != b {
+				return "equal_instants_in_different_zones"
 			}
 		}
-		for _, p := range zx {
-			for _, q := range zy {
-				if p != q {
-					return "equal_instant_different_zone"
-				}
-			}
-		}
-		return "equal_instant_same_zone"
 	}
-	return "other"
+	return "single_zone_per_instant"
 }
 
 func checkSortDirect(c *fw.Case, r *rand.Rand, rows results.Rows, hasDup bool, perms int, sample bool) {
 	if hasDup {
 		c.Count("multisets_with_duplicates", 1)
 	}
+	c.Note("By(..).Sort of %s", resgen.RowsString(rows, 40))
+	inIDs := resgen.Idents(rows)
 	for _, cb := range allCombos {
 		ti := analyse(rows, cb)
 		c.Count("sorts", 1)
@@ -289,14 +292,10 @@ func checkSortDirect(c *fw.Case, r *rand.Rand, rows results.Rows, hasDup bool, p
 		for p := 0; p < perms; p++ {
 			in := shuffled(r, rows)
 			work := append(results.Rows(nil), in...)
-			c.Note("By(%s).Sort of %d rows", cb, len(work))
 			results.By(cb.key, cb.dir, cb.asc).Sort(work)
 			out := resgen.Idents(work)
 			// permutation of the input?
-			a, b := append([]resgen.Ident(nil), out...), resgen.Idents(in)
-			resgen.SortIdents(a)
-			resgen.SortIdents(b)
-			if equalIdents(a, b) != -1 {
+			if !sameMultiset(out, inIDs) {
 				c.Violatef("rows_changed_by_sort", "%s: output is not a permutation of the input; in=%s out=%s", cb, resgen.RowsString(in, 20), resgen.RowsString(work, 20))
 				return
 			}
@@ -309,10 +308,10 @@ func checkSortDirect(c *fw.Case, r *rand.Rand, rows results.Rows, hasDup bool, p
 				continue
 			}
 			if at := equalIdents(ref, out); at != -1 {
-				cls := permClass(rows, ref, out, at)
-				w := witness2(rows, ref, out, at, cb)
-				c.Violatef("order_depends_on_input_order|"+cls, "%s: two input orders of one multiset sort differently (first difference at position %d). input A=%s -> %s ; input B=%s -> %s%s",
-					cb, at, resgen.RowsString(refIn, 16), resgen.RowsString(refOut, 16), resgen.RowsString(in, 16), resgen.RowsString(work, 16), w)
+				cls := zoneClass(rows)
+				w := witness2(rows, cb)
+				c.Violatef("order_depends_on_input_order|"+cls, "%s: two input orders of one multiset sort differently (first difference at position %d).%s input A=%s -> %s ; input B=%s -> %s",
+					cb, at, w, resgen.RowsString(refIn, 8), resgen.RowsString(refOut, 8), resgen.RowsString(in, 8), resgen.RowsString(work, 8))
 				return
 			}
 		}
@@ -323,31 +322,41 @@ func checkSortDirect(c *fw.Case, r *rand.Rand, rows results.Rows, hasDup bool, p
 }
 
 // witness2 tries to shrink an order dependence to two rows.
-func witness2(rows results.Rows, a, b []resgen.Ident, at int, cb combo) string {
-	if at < 0 || at >= len(a) || at >= len(b) {
-		return ""
-	}
-	var x, y *results.Row
+func witness2(rows results.Rows, cb combo) string {
 	for i := range rows {
-		id := resgen.IdentOf(rows[i])
-		if id == a[at] && x == nil {
-			x = &rows[i]
+		for j := i + 1; j < len(rows); j++ {
+			p1 := results.Rows{rows[i], rows[j]}
+			p2 := results.Rows{rows[j], rows[i]}
+			results.By(cb.key, cb.dir, cb.asc).Sort(p1)
+			results.By(cb.key, cb.dir, cb.asc).Sort(p2)
+			if equalIdents(resgen.Idents(p1), resgen.Idents(p2)) != -1 {
+				return fmt.Sprintf(" MINIMAL: rows x=%s y=%s: [x y] sorts to %s but [y x] sorts to %s.", resgen.RowString(rows[i]), resgen.RowString(rows[j]), resgen.RowsString(p1, 2), resgen.RowsString(p2, 2))
+			}
 		}
-		if id == b[at] && y == nil {
-			y = &rows[i]
-		}
-	}
-	if x == nil || y == nil {
-		return ""
-	}
-	p1 := results.Rows{*x, *y}
-	p2 := results.Rows{*y, *x}
-	results.By(cb.key, cb.dir, cb.asc).Sort(p1)
-	results.By(cb.key, cb.dir, cb.asc).Sort(p2)
-	if equalIdents(resgen.Idents(p1), resgen.Idents(p2)) != -1 {
-		return fmt.Sprintf(" ; MINIMAL: the two rows %s and %s come out as given: [x y] -> %s but [y x] -> %s", resgen.RowString(*x), resgen.RowString(*y), resgen.RowsString(p1, 2), resgen.RowsString(p2, 2))
 	}
 	return ""
+}
+
+// requested returns the order a query asks for: time queries are documented to be forced to ascending
+// time order, everything else follows sort_by / in,out,sum / sort_ascending.
+func requested(cb combo, timeQuery bool) combo {
+	if timeQuery {
+		return combo{results.SortTime, cb.dir, true}
+	}
+	return cb
+}
+
+// stmtMatches reports (as a violation) a prepared statement that does not carry the requested order.
+func stmtMatches(c *fw.Case, a *query.Args, stmt *query.Statement, want combo) bool {
+	if stmt.SortBy == want.key && stmt.Direction == want.dir && stmt.SortAscending == want.asc {
+		return true
+	}
+	sig := "statement_order_args"
+	if stmt.SortBy == want.key && stmt.Direction == want.dir {
+		sig = "ascending_flag_ignored"
+	}
+	c.Violatef(sig, "Args.Prepare(%s) requested {%s} but the statement carries {sort=%s dir=%s asc=%v}", a.ToJSONString(), want, stmt.SortBy, stmt.Direction, stmt.SortAscending)
+	return false
 }
 
 // ---- (b) the row limit through Statement.PostProcess -----------------------------------------
@@ -392,13 +401,16 @@ func checkLimit(c *fw.Case, r *rand.Rand, rows results.Rows) {
 			resolution = fmt.Sprintf("%ds", binSec)
 		}
 	}
+	eff := requested(cb, timeQuery)
 	prep := func(limit uint64) *query.Statement {
 		a := argsFor(cb, qtype, limit)
 		a.TimeResolution = resolution
-		c.Note("Args.Prepare %s", a.ToJSONString())
 		stmt, err := a.Prepare()
 		if err != nil {
 			c.Violatef("prepare_error", "Args.Prepare(%s): %v", a.ToJSONString(), err)
+			return nil
+		}
+		if !stmtMatches(c, a, stmt, eff) {
 			return nil
 		}
 		return stmt
@@ -407,11 +419,6 @@ func checkLimit(c *fw.Case, r *rand.Rand, rows results.Rows) {
 	if full == nil {
 		return
 	}
-	if !timeQuery && (full.SortBy != cb.key || full.Direction != cb.dir || full.SortAscending != cb.asc) {
-		c.Violatef("prepare_sort_args", "Args.Prepare for %s produced sort=%s dir=%s asc=%v", cb, full.SortBy, full.Direction, full.SortAscending)
-		return
-	}
-	eff := combo{full.SortBy, full.Direction, full.SortAscending}
 	// the order under test: rows sorted by the real sorter with the statement's parameters
 	sorted := append(results.Rows(nil), rows...)
 	results.By(full.SortBy, full.Direction, full.SortAscending).Sort(sorted)
@@ -583,6 +590,9 @@ func checkDistributed(c *fw.Case, r *rand.Rand) {
 			c.Violatef("prepare_error", "Args.Prepare(%s): %v", a.ToJSONString(), err)
 			return nil, nil, false
 		}
+		if !stmtMatches(c, a, stmt, requested(cb, timeQuery)) {
+			return nil, nil, false
+		}
 		c.Note("distributed run %s hosts=%v order=%v", a.ToJSONString(), names, sq.order)
 		res, err := gqdist.NewQueryRunner(rm, sq).Run(context.Background(), a)
 		if err != nil {
@@ -598,11 +608,11 @@ func checkDistributed(c *fw.Case, r *rand.Rand) {
 		}
 		return sb.String()
 	}
-	full, stmt, ok := runOnce(math.MaxUint32)
+	full, _, ok := runOnce(math.MaxUint32)
 	if !ok {
 		return
 	}
-	eff := combo{stmt.SortBy, stmt.Direction, stmt.SortAscending}
+	eff := requested(cb, timeQuery)
 	c.Count("dist_runs", 1)
 	if crossTies {
 		c.Count("dist_runs_with_cross_host_ties", 1)
@@ -626,18 +636,35 @@ func checkDistributed(c *fw.Case, r *rand.Rand) {
 			return
 		}
 		if at := equalIdents(fullIDs, resgen.Idents(again)); at != -1 {
-			cls := "other"
-			if at >= 0 && at < len(fullIDs) && at < len(again) {
-				x, y := full[at], again[at]
-				if !x.Labels.Timestamp.IsZero() && x.Labels.Timestamp.Equal(y.Labels.Timestamp) {
-					cls = "equal_instant_same_zone"
-					if x.Labels.Timestamp.Format("-07:00") != y.Labels.Timestamp.Format("-07:00") {
-						cls = "equal_instant_different_zone"
+			var all results.Rows
+			for _, hd := range hds {
+				all = append(all, hd.rows...)
+			}
+			cls := zoneClass(all)
+			// shrink: two rows of two hosts
+			min := ""
+			saved := hds
+		shrink:
+			for i := range all {
+				for j := i + 1; j < len(all); j++ {
+					if all[i].Labels.Hostname == all[j].Labels.Hostname {
+						continue
+					}
+					hds = []hostData{{all[i].Labels.Hostname, results.Rows{all[i]}}, {all[j].Labels.Hostname, results.Rows{all[j]}}}
+					names = []string{all[i].Labels.Hostname, all[j].Labels.Hostname}
+					first, _, ok := runOnce(math.MaxUint32)
+					for k := 0; ok && k < 12; k++ {
+						nxt, _, ok2 := runOnce(math.MaxUint32)
+						if ok2 && equalIdents(resgen.Idents(first), resgen.Idents(nxt)) != -1 {
+							min = fmt.Sprintf(" MINIMAL: two hosts with one row each, %s and %s: one run returns %s, another %s.", resgen.RowString(all[i]), resgen.RowString(all[j]), resgen.RowsString(first, 2), resgen.RowsString(nxt, 2))
+							break shrink
+						}
 					}
 				}
 			}
-			c.Violatef("distributed_order_differs_between_runs|"+cls, "%s query=%q: two runs over the same host results differ at position %d: %s vs %s; hosts: %s", eff, qtype, at,
-				resgen.RowsString(full, 12), resgen.RowsString(again, 12), describe())
+			hds = saved
+			c.Violatef("distributed_order_differs_between_runs|"+cls, "%s query=%q: two runs over the same host results differ at position %d.%s run A=%s run B=%s; hosts: %s", eff, qtype, at, min,
+				resgen.RowsString(full, 8), resgen.RowsString(again, 8), describe())
 			return
 		}
 	}
@@ -678,7 +705,10 @@ func checkEngine(c *fw.Case, r *rand.Rand) {
 			c.Violatef("prepare_error", "Args.Prepare(%s): %v", a.ToJSONString(), err)
 			return
 		}
-		eff := combo{stmt.SortBy, stmt.Direction, stmt.SortAscending}
+		eff := requested(cb, strings.HasPrefix(qtype, "time"))
+		if !stmtMatches(c, a, stmt, eff) {
+			return
+		}
 		c.Note("engine query %s", a.ToJSONString())
 		res, err, pmsg := eng.Run(dbPath, a)
 		if pmsg != "" || err != nil {
@@ -692,11 +722,27 @@ func checkEngine(c *fw.Case, r *rand.Rand) {
 			c.Violatef("not_sorted|engine", "query %s: %s", a.ToJSONString(), msg)
 			return
 		}
+		// Out of scope here (C08's group_split): the engine can return two rows for one (labels, attributes)
+		// group (an IPv6 address with 12 trailing zero bytes is rendered as IPv4). Such rows cannot be ordered
+		// by labels and attributes, so the permutation check is skipped for those results.
+		dupKeys := false
+		seenK := map[resgen.Key]bool{}
+		for _, id := range ids {
+			if seenK[id.Key] {
+				dupKeys = true
+			}
+			seenK[id.Key] = true
+		}
+		if dupKeys {
+			c.Count("engine_results_with_split_groups_skipped", 1)
+			continue
+		}
 		// the engine's order must be the order any other input order sorts to
 		sh := shuffled(r, res.Rows)
 		results.By(stmt.SortBy, stmt.Direction, stmt.SortAscending).Sort(sh)
 		if at := equalIdents(ids, resgen.Idents(sh)); at != -1 {
-			c.Violatef("order_depends_on_input_order|engine", "query %s: engine order and re-sorted shuffled rows differ at %d: %s vs %s", a.ToJSONString(), at, resgen.RowsString(res.Rows, 10), resgen.RowsString(sh, 10))
+			lo, hi := max(at-1, 0), min(at+3, len(sh))
+			c.Violatef("order_depends_on_input_order|engine", "query %s: engine order and re-sorted shuffled rows differ at %d.%s engine[%d:%d]=%s vs resorted[%d:%d]=%s", a.ToJSONString(), at, witness2(res.Rows, eff), lo, hi, resgen.RowsString(res.Rows[lo:hi], 10), lo, hi, resgen.RowsString(sh[lo:hi], 10))
 			return
 		}
 		if len(res.Rows) >= 2 {
@@ -738,15 +784,24 @@ func run(c *fw.Case) {
 	if c.Tier == "thorough" {
 		nSets, perms, nDist = 320, 20, 300
 	}
+	t0 := time.Now()
+	var dSort, dLimit time.Duration
 	for i := 0; i < nSets; i++ {
 		rows, dup := genMultiset(r)
+		t := time.Now()
 		checkSortDirect(c, r, rows, dup, perms, i == 0)
+		dSort += time.Since(t)
+		t = time.Now()
 		checkLimit(c, r, rows)
+		dLimit += time.Since(t)
 	}
+	t1 := time.Now()
 	for i := 0; i < nDist; i++ {
 		checkDistributed(c, r)
 	}
+	t2 := time.Now()
 	if c.Idx%8 == 0 {
 		checkEngine(c, r)
 	}
+	c.Logf("timing (informational): sort %s limit %s dist %s engine %s total %s", dSort, dLimit, t2.Sub(t1), time.Since(t2), time.Since(t0))
 }
